@@ -173,6 +173,10 @@ func (ssc *defaultStatefulSetControl) AdoptOrphanRevisions(
 	set *apps.StatefulSet,
 	revisions []*kubeapps.ControllerRevision) error {
 	for i := range revisions {
+		// ListRevisions also returns the revisions set already controls
+		if metav1.GetControllerOfNoCopy(revisions[i]) != nil {
+			continue
+		}
 		adopted, err := ssc.adoptControllerRevision(set, controllerKind, revisions[i])
 		if err != nil {
 			return err
